@@ -42,6 +42,15 @@ def execute(acc, case):
 
         def caller(i):
             results[i] = ("returned", app.send_message(reqs[i]))
+        if case.get("park"):
+            # park sweep (DESIGN 2.5b): one caller, or one of the library's answer-dispatch threads, is descheduled at its n-th
+            # source line in bromelia.py until the rest of the exchange has gone as far as it can without it
+            who, nth = case["park"]
+            if who == "caller":
+                sched.parks.append({"task": "caller1", "nth": nth, "timeout": 1.0, "release": lambda: len(results) >= k - 1})
+            else:
+                sched.parks.append({"task": "recv_answer_1", "nth": nth, "timeout": 0.5,
+                                    "release": lambda: all(t.done or t.why == "parked" for t in sched.tasks if t.name.startswith("recv_answer_")) and len(answered) >= k})
         for i in range(1, k + 1):
             sched.spawn("caller%d" % i, caller, i)
         order = case["order"]
@@ -83,6 +92,11 @@ def execute(acc, case):
         # are registered with the scheduler under the library's own names) has finished
         sched.run_until(lambda: wire_task.done and all(t.done for t in sched.tasks if t.name.startswith("recv_answer_")), 5.0, "dispatch-finishes")
         acc.counters["executions"] += 1
+        if sched.parked_at:
+            acc.counters["task_parked_during_the_exchange"] += 1
+            acc.extra.setdefault("parked_at", {})
+            kk = "%s@%s" % sched.parked_at[0]
+            acc.extra["parked_at"][kk] = acc.extra["parked_at"].get(kk, 0) + 1
         wit.update({"answered_order": answered, "returned": sorted(results), "tasks": sched.blocked_report(), "deaths": sched.deaths,
                     "schedule": sched.schedule_hash(), "choices": sched.choices[:3000]})
         objs = {}
@@ -165,6 +179,14 @@ def main(tier, seed):
         rng.shuffle(order)
         cases.append({"seed": seed * 5003 + 10000 + i, "k": k, "order": order, "policy": rng.choice(["immediate", "after-all", "groups"]),
                       "strategy": "rw", "p": rng.choice([0.05, 0.2, 0.5])})
+    for who, span in (("caller", 40), ("dispatch", 30)):
+        for nth in range(0, span):
+            for policy in (["after-all"] if q else ["immediate", "after-all", "groups"]):
+                for k in ((3,) if q else (2, 3, 4)):
+                    order = list(range(1, k + 1))
+                    rng.shuffle(order)
+                    cases.append({"seed": seed * 5003 + 50000 + len(cases), "k": k, "order": order, "policy": policy, "strategy": "rw", "p": 0.02,
+                                  "park": [who, nth]})
     rng.shuffle(cases)
     nb = 16 if q else 64
     batches = [{"cases": cases[i::nb]} for i in range(nb)]
@@ -174,7 +196,7 @@ def main(tier, seed):
     return harness.finish(PROP, tier, seed, "exploration", acc, RULE,
                           ["in-process workers (fake manager); the multi-process deployment of Bromelia.run() is out of reach",
                            "bounded progress: every caller returns within 30 virtual seconds after its answer was dispatched; a deadlock found by the scheduler is definitive"],
-                          t0, require_counters=("executions", "callers_matched", "steps", "real_loopback_ok"))
+                          t0, require_counters=("executions", "callers_matched", "steps", "real_loopback_ok", "task_parked_during_the_exchange"))
 
 
 def replay(w):
